@@ -26,7 +26,7 @@ META = {
     "tied to pydra/compose/shell/{task,builder,templating}.py and pydra/utils/general.py by generating task definitions through "
     "shell.define/shell.arg/shell.outarg and comparing the argv handed to subprocess.run (thorough: also the argv a real child "
     "receives) with the model and with an independent Python oracle; the Lean reference Spec.commandArgs is compared with that oracle on every case.",
-    "text2": "Argstr TEXT: parseArgstr's segments render back to the text minus '...' (C22_parse_roundtrip), templated = \"{\" in text "
+    "text_extended": "Argstr TEXT: parseArgstr's segments render back to the text minus '...' (C22_parse_roundtrip), templated = \"{\" in text "
     "(C22_parse_wf), literal pieces are brace-free pieces of the text (C22_parse_pieces), brace-free text is one literal (C22_parse_plain); "
     "C22_commandArgs_text_partial restates the main theorem on the text users write.  Extended model (Argv/ModelX.lean, driver op runx): "
     "formatter= as an uninterpreted function (C22_formatter_args: what it is called with; C22_formatter_lands: its stripped/squeezed result is "
@@ -35,7 +35,7 @@ META = {
     "(parameter xenv), allowed_values and the mandatory rule (prepare); C22_extended_partial = the main theorem on the lowered definition; "
     "C22_lower_base/_position: lowering is the identity on base fields and never touches positions.",
     "note": "Trusted: Lean kernel; hand-written model (Argv/Model.lean, PositionSort.lean, Shlex.lean); the Python oracle "
-    "harness/engines/argv.py:spec_argv; generator reach (no formatter / readonly / allowed_values / format specs / xor).",
+    "harness/engines/argv.py:spec_argv; generator reach (no xor/requires, no {{ }} escapes or attribute/item lookups in argstrs).",
     "rule": "case = (definition: up to 6 fields of kinds bool/str/int/float/Path/list/MultiInputObj/outarg with argstr None/''/plain/"
     "templated/cross-referencing/'...', explicit + implicit + negative positions, separators; value assignment over the safe "
     "alphabet); distinct by canonical JSON; non-trivial = at least two set fields or a list field set",
@@ -65,6 +65,10 @@ OBLIGATIONS = [
         "C22_omit_no_argstr",
         "C22_omit_skipped",
         "C22_flag",
+        "C22_tp_unwrap",
+        "C22_flag_optional",
+        "C22_classForm_sorted",
+        "C22_witness_D45",
         "C22_list_repeated",
         "C22_list_joined",
         "C22_scalar_plain",
@@ -132,6 +136,8 @@ def run_cases(ctx, cases, *, real_child=False):
         ctx.count(f"set-fields={min(n_set, 5)}{'+' if n_set >= 5 else ''}")
         for f, v in zip(c["fields"], c["values"]):
             ctx.count("kind:" + f["kind"])
+            if f["kind"] == "bool" and f["optional"]:
+                ctx.count("optional-flag:" + str(v))
             if f["argstr"] is None:
                 ctx.count("argstr:none")
             elif "{" in f["argstr"]:
@@ -168,7 +174,7 @@ def run_cases_x(ctx, cases):
             raise core.Infra(f"C22 oracle failed on {c}: {e!r}")
         spec_ok = impl["argv"] == want
         d = None
-        for fid, rule in (("D26", lambda cc: A.rule_D26(cc, A.is_set_x)), ("D41", A.rule_D41), ("D42", A.rule_D42)):
+        for fid, rule in (("D26", lambda cc: A.rule_D26(cc, A.is_set_x)), ("D45", lambda cc: A.rule_D45(cc, A.is_set_x)), ("D41", A.rule_D41), ("D42", A.rule_D42)):
             if rule(c):
                 d = fid
                 break
@@ -182,6 +188,9 @@ def run_cases_x(ctx, cases):
                 ctx.count("x:format-spec")
         if exp:
             ctx.count("x:expected-error:" + exp)
+        ctx.count("x:form:" + c.get("form", "inputs="))
+        if any(f["kind"] == "bool" and f["optional"] for f in c["fields"]):
+            ctx.count("x:optional-flag")
         if d:
             ctx.count("rule:" + d)
         feat = any(f.get("formatter") or f.get("allowed") or f.get("readonly") or f["kind"] in ("fbool", "out") for f in c["fields"])
@@ -206,7 +215,16 @@ def correspondence(ctx):
     corpus(ctx)
     n = ctx.pick(250, 8000)
     run_cases(ctx, [A.gen_case(ctx.rng, word=A.safe_word) for _ in range(n)])
-    run_cases_x(ctx, A.load_corpus("c22x.jsonl") + [A.gen_case_x(ctx.rng) for _ in range(ctx.pick(150, 5000))])
+    known = {f["id"] for f in ctx.known()}
+    xcorpus = A.load_corpus("c22x.jsonl")
+    for c in xcorpus:
+        fid = c.pop("finding", None)
+        if fid and fid in known:
+            i = A.run_impl(c, ctx.scratch, want_cmdline=False)
+            ctx.finding(fid, i["argv"] != A.spec_argv_x(c), f"argv {i['argv']} ; documented {A.spec_argv_x(c)}")
+    nx = ctx.pick(150, 5000)
+    run_cases_x(ctx, xcorpus + [A.gen_case_x(ctx.rng) for _ in range(nx // 2)]
+                + [A.gen_case(ctx.rng, word=A.safe_word, class_form=1.0, allow_bad_def=0.0) for _ in range(nx - nx // 2)])
     if not ctx.quick:
         run_cases(ctx, [A.gen_case(ctx.rng, word=A.safe_word, outargs=False) for _ in range(400)], real_child=True)
 
@@ -217,7 +235,7 @@ def search(ctx):
 
 
 def is_x_case(c) -> bool:
-    return any(f.get("formatter") or f.get("allowed") is not None or f.get("readonly") or f.get("template") or f["kind"] in ("fbool", "ro") for f in c["fields"]) or any(
+    return c.get("form") == "class" or any(f.get("formatter") or f.get("allowed") is not None or f.get("readonly") or f.get("template") or f["kind"] in ("fbool", "ro") for f in c["fields"]) or any(
         f["argstr"] and any(A._split_key(k)[1] for k in A.KEY_RX.findall(f["argstr"])) for f in c["fields"]
     )
 
